@@ -147,7 +147,8 @@ func c13R1(h H) {
 
 func c13R2(h H) {
 	r := h.r
-	r.Rule("R2", "body path: Handler.ServeHTTP passes the request's own Body (a direct load of r.Body, not a φ with nil) to FCGIClient.Get/Post; in FCGIClient.Do the error results of io.Copy(body, req) and of closing the stdin stream are each tested and lead to an error return", 4)
+	r.Rule("R2", "body path: Handler.ServeHTTP passes the request's own Body (a direct load of r.Body, not a φ with nil) to FCGIClient.Get/Post; FCGIClient.Post, evaluated (E10) for a declared and for an unknown length (0), hands that very reader on to Request — not a wrapper that could cut it short — and announces the length it was given; in FCGIClient.Do the error results of io.Copy(body, req) and of closing the stdin stream are each tested and lead to an error return", 4)
+	c13PostTable(h)
 	if fn := h.fn("R2", fcPkg, "Handler.ServeHTTP"); fn != nil {
 		n := 0
 		allInstrs(fn, func(in ssa.Instruction) {
@@ -605,4 +606,61 @@ func c13R6(h H) {
 func isZero(v ssa.Value) bool {
 	c, ok := constInt(v)
 	return ok && c == 0
+}
+
+
+// c13PostTable: the body reader reaches the request writer unwrapped.  ServeHTTP passes 0 as the length when the
+// client did not declare one (chunked bodies): anything that limits the reader to the announced length sends such a
+// body as zero bytes.
+func c13PostTable(h H) {
+	r := h.r
+	fn := h.fn("R2", fcPkg, "(*FCGIClient).Post")
+	if fn == nil {
+		return
+	}
+	mapT, _ := underlying(fn.Params[1].Type()).(*types.Map)
+	bad, n := "", 0
+	for _, l := range []int64{0, 5, 70000} {
+		n++
+		body := &aobj{name: "request body", typ: types.Typ[types.Int], f: map[string]aval{}}
+		var got aval
+		var params amap
+		env := &absEnv{noFork: true, maxSteps: 100000, globals: map[string]*aobj{}}
+		env.ext = func(callee string, args []aval) (aval, bool) {
+			if strings.HasSuffix(callee, "FCGIClient).Request") {
+				if m, ok := args[1].(amap); ok {
+					params = m
+				}
+				got = args[2]
+				return atuple{anil{}, anil{}}, true
+			}
+			if callee == "strconv.FormatInt" {
+				if v, ok := args[0].(aint); ok {
+					return astr(sprintf("%d", int64(v))), true
+				}
+			}
+			return nil, false
+		}
+		client := &aobj{name: "client", typ: fn.Params[0].Type().(*types.Pointer).Elem(), f: map[string]aval{}}
+		client.in = func(o *aobj, path string, t types.Type) aval { return aunk{"client field " + path} }
+		p := amap{&amapData{vals: map[string]aval{}, keys: map[string]aval{}, typ: mapT}}
+		_, und := env.run(fn, []aval{aptr{client, ""}, p, astr("PUT"), astr("text/plain"), aiface{aptr{body, ""}, types.Typ[types.Int]}, aint(l)})
+		desc := sprintf("Post with length %d", l)
+		if und != "" {
+			bad = desc + ": undecided — " + und
+			break
+		}
+		rd := ifaceVal(got)
+		if pp, ok := rd.(aptr); !ok || pp.obj != body {
+			bad = sprintf("%s: the reader handed to Request is %s, not the request body itself (with length 0 meaning unknown, a length-limited wrapper sends a chunked body as no bytes at all)", desc, describeAval(got))
+			break
+		}
+		if params.m != nil {
+			if cl, _ := params.m.vals["s:CONTENT_LENGTH"].(astr); string(cl) != sprintf("%d", l) {
+				bad = sprintf("%s: CONTENT_LENGTH is announced as %s", desc, describeAval(params.m.vals["s:CONTENT_LENGTH"]))
+				break
+			}
+		}
+	}
+	r.Check(bad == "", "R2", "fastcgi.(*FCGIClient).Post/body-reader-handed-on", fn.Pos(), "the responder's stdin is fed from the request body itself, whatever length was announced", sprintf("%d cases evaluated", n), bad)
 }
